@@ -199,13 +199,138 @@ Definition check_passwd (stored pw : list Z) : res bool :=
 
 Definition wire_bool (b : bool) : list Z := [if b then 1 else 0].
 
+(* ---------------------------------------------------------------------------------------------- sessions
+   Several calls made by ONE caller who keeps what the calls returned and looks at it only afterwards (op 5), and
+   the same calls made from concurrent goroutines (op 6). The Go functions are modelled as functions of their
+   arguments: a call neither reads nor writes anything else, so in the model "the answer of call i depends only on
+   the arguments of call i" holds by construction (Props: C02_calls_independent, C02_order_independent). What has to
+   be CHECKED is that the implementation is such a function — that a returned slice is not a window onto a buffer the
+   next call overwrites, that CheckPasswd(h, pw) with h a slice Fcrypt returned does not compare a buffer with itself,
+   that two goroutines do not share scratch state. The harness does that (checks/C02.py, ops 5 and 6). *)
+Inductive call : Type :=
+| CFcrypt (pw salt : list Z)                 (* crypt.Fcrypt(pw, salt) *)
+| CGen (pw salt : list Z)                    (* cmbbs.GenPasswd(pw), salt = the two bytes it drew *)
+| CCheck (stored pw : list Z)                (* cmbbs.CheckPasswd(stored, pw), stored a slice of the caller's own *)
+| CCheckKept (j : nat) (pw : list Z).        (* cmbbs.CheckPasswd(h, pw), h the very slice call j returned *)
+
+Definition is_hash_call (c : call) : bool :=
+  match c with CFcrypt _ _ | CGen _ _ => true | _ => false end.
+(* a call that refers to nothing an earlier call returned *)
+Definition closed (c : call) : bool :=
+  match c with CCheckKept _ _ => false | _ => true end.
+
+(* the answer of one call; [kept] = what the caller holds from the earlier calls, in order (None: no hash returned).
+   None = a reference to something that is not there (a bad case, not a behaviour of the code). *)
+Definition step (kept : list (option (list Z))) (c : call) : option (res (list Z)) :=
+  match c with
+  | CFcrypt pw salt => Some (fcrypt pw salt)
+  | CGen pw salt => Some (gen_passwd pw salt)
+  | CCheck stored pw => Some (res_map wire_bool (check_passwd stored pw))
+  | CCheckKept j pw =>
+      match nth_error kept j with
+      | Some (Some h) => Some (res_map wire_bool (check_passwd h pw))
+      | _ => None
+      end
+  end.
+(* what the caller holds after call c answered o *)
+Definition keeps (c : call) (o : option (res (list Z))) : option (list Z) :=
+  match o with
+  | Some (Ok h) => if is_hash_call c then Some h else None
+  | _ => None
+  end.
+
+Fixpoint session_from (kept : list (option (list Z))) (calls : list call) : list (option (res (list Z))) :=
+  match calls with
+  | [] => []
+  | c :: rest => let o := step kept c in o :: session_from (kept ++ [keeps c o]) rest
+  end.
+(* the answers of a whole session, as the caller reads them after the last call *)
+Definition session (calls : list call) : list (option (res (list Z))) := session_from [] calls.
+
+(* a call on its own, and what a caller would hold from it *)
+Definition alone (c : call) : option (res (list Z)) := step [] c.
+Definition kept_alone (c : call) : option (list Z) := keeps c (alone c).
+
+(* wire: groups k | a | b, three per call *)
+Fixpoint parse_calls (g : list (list Z)) : option (list call) :=
+  match g with
+  | [] => Some []
+  | [k] :: a :: b :: rest =>
+      match parse_calls rest with
+      | None => None
+      | Some cs =>
+          if k =? 1 then Some (CFcrypt a b :: cs)
+          else if k =? 2 then Some (CGen a b :: cs)
+          else if k =? 3 then Some (CCheck a b :: cs)
+          else if k =? 4 then
+            match a with
+            | [j] => if (0 <=? j) && (j <=? 1048576) then Some (CCheckKept (Z.to_nat j) b :: cs) else None
+            | _ => None
+            end
+          else None
+      end
+  | _ => None
+  end.
+
+(* the Go driver makes the calls in order: the first panic ends the case (status 1), the first dangling reference
+   makes it a bad case (status 9); otherwise per call: length, payload, 0 ("no argument slice was written to") *)
+Fixpoint wire_session (outs : list (option (res (list Z)))) : option (res (list Z)) :=
+  match outs with
+  | [] => Some (Ok [])
+  | None :: _ => None
+  | Some (Ok p) :: rest =>
+      match wire_session rest with
+      | Some (Ok t) => Some (Ok (lenZ p :: p ++ 0 :: t))
+      | x => x
+      end
+  | Some r :: _ => Some r
+  end.
+
+(* op 6: every call once alone (the sequential answer), then `rounds` times each from concurrent goroutines; per call:
+   length, sequential answer (nothing for GenPasswd, whose salt is fresh each time), 0 answers that differed, 0 = the
+   slice kept from the last call still holds its answer. The model has no shared state: nothing to interleave. *)
+Fixpoint wire_concurrent (calls : list call) : option (res (list Z)) :=
+  match calls with
+  | [] => Some (Ok [])
+  | c :: rest =>
+      if closed c then
+        match alone c with
+        | Some (Ok p) =>
+            match wire_concurrent rest with
+            | Some (Ok t) =>
+                Some (Ok (match c with CGen _ _ => 0 :: 0 :: 0 :: t | _ => lenZ p :: p ++ 0 :: 0 :: t end))
+            | x => x
+            end
+        | x => x
+        end
+      else None
+  end.
+Fixpoint all_closed (calls : list call) : bool :=
+  match calls with [] => true | c :: r => closed c && all_closed r end.
+
+Definition wire_opt (o : option (res (list Z))) : list Z :=
+  match o with None => [ST_BADCASE] | Some r => wire (fun x => x) r end.
+
 (* wire: op 1 Fcrypt(pw, salt); op 2 GenPasswd(pw) with the drawn salt as third group; op 3 CheckPasswd(stored, pw);
-   op 4 the crypt(3) specification of Model/C02_DesSpec.v (status 3 1: salt outside the alphabet) *)
+   op 4 the crypt(3) specification of Model/C02_DesSpec.v (status 3 1: salt outside the alphabet);
+   op 5 a session k|a|b|k|a|b|...; op 6 rounds|k|a|b|... the same calls concurrently *)
 Definition run_case (args : list (list Z)) : list Z :=
   match args with
   | [[1]; pw; salt] => wire (fun h => h) (fcrypt pw salt)
   | [[2]; pw; salt] => wire (fun h => h) (gen_passwd pw salt)
   | [[3]; stored; pw] => wire wire_bool (check_passwd stored pw)
   | [[4]; pw; salt] => match C02_DesSpec.crypt pw salt with Some h => ST_OK :: h | None => [ST_ERR; 1] end
+  | [5] :: g =>
+      match parse_calls g with
+      | None => [ST_BADCASE]
+      | Some cs => wire_opt (wire_session (session cs))
+      end
+  | [6] :: [rounds] :: g =>
+      match parse_calls g with
+      | None => [ST_BADCASE]
+      | Some cs =>
+          if (0 <=? rounds) && (rounds <=? 1000000) && (Nat.leb (length cs) 16) && all_closed cs
+          then wire_opt (wire_concurrent cs) else [ST_BADCASE]
+      end
   | _ => [ST_BADCASE]
   end.
